@@ -65,6 +65,8 @@ class Frame:
         object.__setattr__(self, '_ghost', ghost or {})
 
     def __getattr__(self, name):
+        if getattr(E.cur(), '_instantiating', False):
+            raise CheckerError(f'a quantified clause reads the local {name!r} while being instantiated (capture its value first)')
         g = object.__getattribute__(self, '_ghost')
         if name in g:
             return g[name]
